@@ -94,7 +94,10 @@ pub(super) fn normalize_frequencies(frequencies: &Frequencies) -> Frequencies {
             continue;
         }
 
-        *g = (f * SCALING_FACTOR / sum).max(1);
+        // The product does not fit in 32 bits when a symbol occurs 2^20 times or more.
+        let normalized_frequency = u64::from(f) * u64::from(SCALING_FACTOR) / u64::from(sum);
+        // SAFETY: `normalized_frequency <= SCALING_FACTOR`.
+        *g = (normalized_frequency as u32).max(1);
 
         normalized_sum += *g;
     }
